@@ -10,7 +10,8 @@ Inductive cobs :=
 | KGet (id : atom) (obs : option (option res))           (* None = reader blocked *)
 | KList (s : sel) (obs : option (list res))
 | KCtx (k : N) (id : atom) (obs : option bool)           (* None = blocked; Some b = returned, cancelled-at-once b *)
-| KCtxState (k : N) (cancelled : bool).
+| KCtxState (k : N) (cancelled : bool)
+| KCtxCancel (k : N).                                     (* the parent context of ctx k is cancelled; other waiters on the same id stay *)
 
 Record cstate := mkCs { cs_cache : cache; cs_ctxs : list (N * atom * bool) }.
 
@@ -56,6 +57,8 @@ Definition cs_step (s : cstate) (o : cobs) : cstate * bool :=
       end
   | KCtxState k cancelled =>
       (s, match ctx_lookup k (cs_ctxs s) with Some c => Bool.eqb c cancelled | None => false end)
+  | KCtxCancel k =>
+      (mkCs (cs_cache s) (map (fun x => let '(k', i, c) := x in if N.eqb k' k then (k', i, true) else x) (cs_ctxs s)), true)
   end.
 
 Fixpoint cs_check_from (s : cstate) (c : list cobs) : bool :=
